@@ -271,6 +271,74 @@ def grammar_derives(pcfg, pw):
     return False
 
 
+def grammar_derivation_probs(pcfg, pw, cap=2000):
+    """probabilities of the pre-terminals of the loaded (non-Markov) grammar that spell pw, found by matching pw against every
+    base structure segment by segment (no enumeration of the language): product of the base-structure probability and of the
+    probability of every group that holds the matched value, multiplied left to right as the guesser does"""
+    index = getattr(pcfg, '_verif_value_index', None)
+    if index is None:
+        index = {}
+        for t, groups in pcfg.grammar.items():
+            d = {}
+            for g in groups:
+                for v in g['values']:
+                    d.setdefault(v, []).append(g['prob'])
+            index[t] = d
+        pcfg._verif_value_index = index
+    out = []
+
+    def masked(w, m):
+        return ''.join(c.upper() if k == 'U' else c for c, k in zip(w, m))
+
+    def match(reps, j, i, p):
+        if len(out) >= cap:
+            return
+        if j == len(reps):
+            if i == len(pw):
+                out.append(p)
+            return
+        t = reps[j]
+        cat = t[0]
+        if cat == 'A':
+            n = int(t[1:])
+            piece = pw[i:i + n]
+            if len(piece) != n or j + 1 >= len(reps) or reps[j + 1][0] != 'C':
+                return
+            low = piece.lower()
+            cands = {low} if len(low) == n else set()
+            for w in cands:
+                for pa in index.get(t, {}).get(w, []):
+                    for m, pms in index.get(reps[j + 1], {}).items():
+                        if masked(w, m) == piece:
+                            for pm in pms:
+                                match(reps, j + 2, i + n, p * pa * pm)
+            return
+        if cat in 'DOK':
+            n = int(t[1:])
+            piece = pw[i:i + n]
+            if len(piece) != n:
+                return
+            for pv in index.get(t, {}).get(piece, []):
+                match(reps, j + 1, i + n, p * pv)
+            return
+        if cat in 'YX':
+            for v, pvs in index.get(t, {}).items():
+                if v and pw.startswith(v, i):
+                    for pv in pvs:
+                        match(reps, j + 1, i + len(v), p * pv)
+            return
+    for b in pcfg.base:
+        reps = b['replacements']
+        if any(t[0] in 'MEW' for t in reps):
+            continue
+        # cheap length filter: the fixed-length labels must not exceed the string
+        fixed = sum(int(t[1:]) for t in reps if t[0] in 'ADOK') + 4 * sum(1 for t in reps if t[0] == 'Y')
+        if fixed > len(pw):
+            continue
+        match(reps, 0, 0, b['prob'])
+    return out
+
+
 def expand_real(pcfg, pt, limit=None):
     lines = []
     pcfg.print_guess = lines.append
